@@ -350,6 +350,9 @@ func compareBody(what string, want, got []byte) []diff {
 	}
 	feat := "content"
 	switch {
+	case abortedMidstream(want, got):
+		// the relay stopped part-way and the gateway wrote its own error object into the running body
+		feat = "aborted-midstream"
 	case len(got) == 0:
 		feat = "emptied"
 	case len(got) < len(want) && bytes.Equal(want[:len(got)], got):
@@ -371,4 +374,24 @@ func firstDiff(a, b []byte) int {
 		}
 	}
 	return n
+}
+
+// abortedMidstream: got = a proper prefix of want followed by a short gateway-generated error object (in whatever media
+// type the client negotiated).
+func abortedMidstream(want, got []byte) bool {
+	l := firstDiff(want, got)
+	if l >= len(want) && len(got) <= len(want) {
+		return false
+	}
+	tail := got[l:]
+	if i := bytes.Index(tail, []byte("KubeGatewayInternalError")); i < 0 || len(tail) > 2048 {
+		// the error object may start with bytes that happen to continue the upstream's body: search a little earlier
+		from := l - 256
+		if from < 0 {
+			from = 0
+		}
+		tail = got[from:]
+		return len(tail) <= 2304 && bytes.Contains(tail, []byte("KubeGatewayInternalError"))
+	}
+	return true
 }
